@@ -106,6 +106,18 @@ func genGraph(r *vh.Rng) (line, base string, triples []string, knobs string) {
 	for n := 1 + r.Intn(3); n > 0; n-- {
 		g.describe(g.node(), 0, pg)
 	}
+	if r.Chance(3) {
+		// a long container: rdf:_1 … rdf:_n in order (written as n rdf:li elements when the switch is on),
+		// n around the places where the decimal numeral grows
+		s, n := g.node(), vh.Pick(r, []int{9, 10, 11, 12, 99, 100, 101})
+		for i := 1; i <= n; i++ {
+			o := g.literal(pg)
+			if r.Chance(30) {
+				o = g.node()
+			}
+			g.triples = append(g.triples, [3]string{s, fmt.Sprintf("%s_%d", rdfNS, i), o})
+		}
+	}
 	if r.Chance(15) {
 		for i := len(g.triples) - 1; i > 0; i-- {
 			j := r.Intn(i + 1)
